@@ -31,13 +31,13 @@ func init() {
 
 // dawgIn is one builder lifetime: the Add calls (accepted or not), probes, searches, and whether to gob.
 type dawgIn struct {
-	Name     string     `json:"name"`
-	Adds     [][]int    `json:"adds"`     // words as byte values
-	NilEmpty bool       `json:"nilEmpty"` // pass the empty word as a nil slice
-	Probes   [][]int    `json:"probes"`
-	Table    bool       `json:"table"` // ask the acceptor to check the full node table (minimality, numWords)
+	Name     string       `json:"name"`
+	Adds     [][]int      `json:"adds"`     // words as byte values
+	NilEmpty bool         `json:"nilEmpty"` // pass the empty word as a nil slice
+	Probes   [][]int      `json:"probes"`
+	Table    bool         `json:"table"` // ask the acceptor to check the full node table (minimality, numWords)
 	Searches [][]searchIn `json:"searches"`
-	Gob      bool       `json:"gob"`
+	Gob      bool         `json:"gob"`
 }
 
 func b2i(b []byte) []int {
